@@ -49,6 +49,18 @@ def r1(R, repo):
     rebinds = [n for n in ast.walk(f.node) if isinstance(n, (ast.Assign, ast.AugAssign)) and n is not unp[0] and other in astu.names_stored(n.targets[0] if isinstance(n, ast.Assign) else n.target)]
     R.check(not rebinds, key_of(f, 'non-selected group `%s` passed through unmodified' % other), (f, rebinds[0]) if rebinds else f, evidence=True, msg_fail=
             '`%s` rebinds the non-selected variable group: it must reach the scope exactly as given, so that outer differentiation / the forward value see the same function of those collections as jax autodiff of the pure apply' % (astu.short(rebinds[0]) if rebinds else ''))
+  # the function handed to jax.vjp / jax.jvp must compute on *its own* arguments: a closed-over `args` is a constant to autodiff
+  for q in ('vjp.inner.wrapper', 'jvp.inner.wrapper', 'value_and_grad.inner.wrapper'):
+    wf = mod.func(q)
+    own = set(astu.params(wf.node)) | {n_.id for n_ in ast.walk(wf.node) if isinstance(n_, ast.Name) and isinstance(n_.ctx, ast.Store)}
+    outer_params = set(astu.params(mod.func(q.rsplit('.', 1)[0]).node))
+    for x in astu.func_calls(wf):
+      if astu.src(x.func) != 'fn':
+        continue
+      key = key_of(wf, 'user function evaluated on the differentiated arguments')
+      free = [a_ for a_ in x.args[1:] for n_ in ast.walk(a_) if isinstance(n_, ast.Name) and n_.id not in own and n_.id in outer_params]
+      R.check(not free, key, (wf, x), '`%s` evaluates the user function on `%s` of the enclosing function instead of on the arguments jax differentiates: the inputs are then constants to autodiff '
+              'and their tangents / cotangents are silently dropped' % (astu.short(x), astu.short(free[0]) if free else ''), evidence=True)
   n_sg = 0
   for q in AD_FUNCS:
     f = mod.func(q)
@@ -163,5 +175,6 @@ meta('C07',
          Mutant('C07-m2', TR, "    for leaf in jax.tree_util.tree_leaves(attrs):\n      get_scopes_inner(leaf)\n    scopes.append(module.scope)", "    for f in dataclasses.fields(module):\n      if f.name != 'parent' and f.init:\n        for leaf in jax.tree_util.tree_leaves(getattr(module, f.name)):\n          get_scopes_inner(leaf)\n    scopes.append(module.scope)", 'C07.R6', why='seed C07-A'),
          Mutant('C07-m3', LI, "      wrapper, vjp_vars, *args, has_aux=True\n", "      wrapper, other_vars, *args, has_aux=True\n", 'C07.R1'),
          Mutant('C07-m4', LI, "      y, res = forward_fn(scopes, *args)\n      vars_out = repack_fn(scopes)\n      return (y, vars_out), res", "      y, res = forward_fn(scopes, *args)\n      vars_out = repack_fn(scopes)\n      return (y, ()), res", 'C07.R3'),
+         Mutant('C07-m6', LI, "    def wrapper(vars_primals, args):\n", "    def wrapper(vars_primals, *primals):\n", 'C07.R1', why='seed C07-C (round 2): body still uses the closed-over args'),
          Mutant('C07-m5', TR, "    has_aux=has_aux,\n    vjp_variables=vjp_variables,\n    variables=variables,\n    rngs=rngs,\n  )", "    has_aux=has_aux,\n    variables=variables,\n    rngs=rngs,\n  )", 'C07.R5'),
      ])
